@@ -105,6 +105,14 @@ class Interp:
             self.path = self.path + (self.counters[-1],)
             self.counters[-1] += 1
             self.counters.append(0)
+        elif k == "skip":
+            # n empty sibling groups (so that later groups get a two-digit position among their siblings)
+            if len(self.path) >= 2:
+                return
+            for _ in range(o[1]):
+                with self.w.group():
+                    pass
+                self.counters[-1] += 1
         elif k == "leave":
             if not self.stack:
                 return
@@ -356,7 +364,13 @@ def check_case(case, acc):
 def table_programs():
     """complete table: placements x flags x attribute validity for single pairs between two simulators"""
     places = [((), ()), ((0,), (0,)), ((0,), ()), ((), (0,)), ((0,), (1,)), ((0, 0), (0, 0)), ((0, 0), (0,)),
-              ((0, 0), (0, 1))]
+              ((0, 0), (0, 1)),
+              # many sibling groups: positions 1 and 10..12 (and below them)
+              # (groups are created in order, so the first simulator sits in the earlier group; both directions
+              # of the connection are tried for these)
+              # positions whose decimal numbers are prefixes of each other, counted from 0 or from 1)
+              ((0,), (9,)), ((0,), (10,)), ((1,), (10,)), ((1,), (19,)), ((0, 0), (10,)), ((0,), (11, 0)),
+              ((0, 0), (0, 9)), ((0, 1), (0, 10)), ((10,), (10,))]
     desc = describe("hybrid", ["a", "b", "c"], ["b"], ["c"], False)   # a: non-trigger in / persistent out; b trigger; c event out
     for pa, pb in places:
         for shift in (0, True, 1, 2):
@@ -364,10 +378,12 @@ def table_programs():
                 for sa in ("a", "c", "q"):
                     for da in ("a", "b", "q"):
                         for init in ((), (sa,)):
-                            ops = []
-                            ops += placement_ops(pa, pb, desc)
-                            ops.append(["connect", 0, 1, [[sa, da]], {"shift": shift, "weak": weak, "init": list(init)}])
-                            yield {"ops": ops, "until": 4}
+                            for rev in ((False, True) if max(pa + pb + (0,)) >= 10 else (False,)):
+                                ops = []
+                                ops += placement_ops(pa, pb, desc)
+                                ops.append(["connect", 1 if rev else 0, 0 if rev else 1, [[sa, da]],
+                                            {"shift": shift, "weak": weak, "init": list(init)}])
+                                yield {"ops": ops, "until": 4}
 
 
 def mixed_programs():
@@ -547,7 +563,7 @@ def shard(prop, tier, seed, shard, nshards):
         return ["connect", draw(st.integers(0, 4)), draw(st.integers(0, 4)), pairs, flags]
 
     op = st.one_of(st.just(["enter"]), st.just(["leave"]), start_op(), start_op(), connect_op(), connect_op(),
-                   connect_op())
+                   connect_op(), st.sampled_from([["skip", 1], ["skip", 8], ["skip", 9], ["skip", 10], ["skip", 19]]))
     prog = st.lists(op, min_size=2, max_size=14).map(lambda ops: {"ops": ops, "until": 3})
     core.drive(prog, check_case, acc, 400 if tier == "quick" else 5000, seed * 1000 + shard)
     return acc
